@@ -203,4 +203,22 @@ example : Closed 4 (initArr [(0, 1, (2 : ℚ)), (2, 3, 4)] 0) (fun i => i < 2) :
   · simp only [List.mem_cons, List.mem_nil_iff, or_false] at hp
     rcases hp with rfl | rfl <;> rcases h with ⟨rfl, rfl⟩ | ⟨rfl, rfl⟩ <;> simp
 
+/-! Non-vacuity of the tree hypotheses: the chain 0 – 1 – 2 (two quotes, three currencies) is connected, so
+`forest_potential` applies to it with any values on its edges. -/
+example : ConnectedE (G := ℚ) 3 [(0, 1, 2), (1, 2, 5)] := by
+  intro S hS hne j hj
+  have h01 := hS (0, 1, 2) (by simp)
+  have h12 := hS (1, 2, 5) (by simp)
+  simp only at h01 h12
+  obtain ⟨i, hi, hSi⟩ := hne
+  have h0 : S 0 := by
+    interval_cases i
+    · exact hSi
+    · exact h01.2 hSi
+    · exact h01.2 (h12.2 hSi)
+  interval_cases j
+  · exact h0
+  · exact h01.1 h0
+  · exact h12.1 (h01.1 h0)
+
 end Rateslib
